@@ -123,7 +123,7 @@ fn enumerate(out: &mut Out) -> u64 {
 pub fn gen(out: &mut Out, _sub: &str) {
     let mut rng = Rng::new(out.seed ^ 0xC08);
     // (a) well-formed programs straight from the generator: small dense ones and larger ones
-    let n_direct = out.size(700, 12000);
+    let n_direct = out.size(600, 12000);
     for n in 0..n_direct {
         let mut r = rng.fork();
         let mut k = Knobs::default();
@@ -137,7 +137,7 @@ pub fn gen(out: &mut Out, _sub: &str) {
         push(out, &prog, "wf");
     }
     // (b) outputs of normalize_basic on raw programs (duplicated shared blocks, artificial sinks)
-    let n_norm = out.size(500, 8000);
+    let n_norm = out.size(400, 8000);
     for n in 0..n_norm {
         let mut r = rng.fork();
         let mut k = Knobs::default();
